@@ -8,7 +8,7 @@ META = {
     'explanation': 'Static path analysis on the MIR of the current tree: (R11.1) along the chain RdpClient::write -> '
                    'write_input_event -> write_data_pdu -> write_pdu -> mcs::write -> x224::write -> tpkt::write -> Link::write every '
                    'successful path performs exactly one call of the next layer and no path performs more (no queue, no retry, '
-                   'no duplicate), so submission order is wire order; (R11.2) unsupported event kinds return Err without any '
+                   'no duplicate), so submission order is wire order; (R11.2) unsupported event kinds return Err - with a kind try_write does not forgive - without any '
                    'transport write; (R11.3) for each of the 4 buttons x 2 press states and 2 key states the pointer/keyboard '
                    'flag word computed on that path is constant-folded and compared with the MS-RDPBCGR table, x/y/scancode '
                    'flow unchanged into xPos/yPos/keyCode, and event types are INPUT_EVENT_MOUSE / INPUT_EVENT_SCANCODE; '
